@@ -480,3 +480,84 @@ type verifGiveUpHandler struct{ done int }
 
 func (h *verifGiveUpHandler) OnError(err error) (Buffer, error) { return nil, err }
 func (h *verifGiveUpHandler) Done()                             { h.done++ }
+
+// Verif_C09_V14b_ReaderTrailingData: the same for an io.ReadCloser source: exactly the
+// object's bytes WITHOUT end of stream (in one or two reads), then 0..2 reads that return
+// (0, nil) - permitted by io.Reader, to be treated as "nothing happened" -, then optionally
+// one more byte, then EOF. The consumer may only observe completion if nothing followed:
+// the end-of-stream probe must not take an empty read for the end of the stream.
+func Verif_C09_V14b_ReaderTrailingData() {
+	n := 1 + vnd.Choose(2)
+	ref := verifNewRef(n)
+	var script []verifDelivery
+	if n == 2 && vnd.Choose(2) == 1 {
+		script = append(script, verifDelivery{data: ref.data[:1]}, verifDelivery{data: ref.data[1:]})
+	} else {
+		script = append(script, verifDelivery{data: ref.data})
+	}
+	empties := vnd.Choose(3)
+	for i := 0; i < empties; i++ {
+		script = append(script, verifDelivery{data: []byte{}})
+	}
+	trailing := vnd.Choose(2) == 1
+	if trailing {
+		script = append(script, verifDelivery{data: vnd.Bytes(1)})
+	}
+	src := &verifReader{script: script}
+	backend := vnd.Choose(2) == 1
+	integ := &verifIntegrity{}
+	b := NewCASBufferFromReader(ref.digest, src, verifSource(backend, integ))
+	var got []byte
+	var err error
+	switch vnd.Choose(4) {
+	case 0:
+		got, err = b.ToByteSlice(10)
+	case 1:
+		w := &verifWriter{}
+		err = b.IntoWriter(w)
+		got = w.data
+	case 2:
+		r := b.ToChunkReader(0, 2)
+		for i := 0; i < 10; i++ {
+			var c []byte
+			c, err = r.Read()
+			got = append(got, c...)
+			if err != nil {
+				break
+			}
+		}
+		r.Close()
+		if err == io.EOF {
+			err = nil
+		}
+	case 3:
+		r := b.ToReader()
+		var p [2]byte
+		for i := 0; i < 10; i++ {
+			var k int
+			k, err = r.Read(p[:])
+			got = append(got, p[:k]...)
+			if err != nil {
+				break
+			}
+		}
+		r.Close()
+		if err == io.EOF {
+			err = nil
+		}
+	}
+	vnd.Assert(src.closes == 1, "source not closed exactly once")
+	if trailing {
+		vnd.Cover("trailing-data")
+		if empties > 0 {
+			vnd.Cover("trailing-data-after-empty-read")
+		}
+		vnd.Assert(err != nil, "consumer observed completion although data follows the object's last byte (after empty reads)")
+		vnd.Assert(integ.valid == 0, "integrity callback received a positive verdict for oversized content")
+	} else {
+		vnd.Cover("exact")
+		vnd.Assert(err == nil, "exact content followed only by empty reads was rejected")
+		vnd.Assert(verifBytesEqual(got, ref.data), "completed with bytes other than the object's")
+	}
+	vnd.ObserveBytes("v14b", got)
+}
